@@ -81,6 +81,32 @@ Json gen(sim::Rng& rng, int tier)
         }
         conns.push(c);
     }
+    // descriptor numbers are reused: in a quarter of the runs a connection that is timed out (answered 408 and closed by the
+    // server) is followed, within one scan period of its end, by a new connection that stalls in its turn
+    if (rng.chance(0.25)) {
+        static const char* points[] = { "connect", "line", "headers" };
+        long T = std::min(H, B);
+        Json a = Json::object();
+        a["tag"] = static_cast<long long>(++tag);
+        a["start_us"] = static_cast<int>(rng.below(3000));
+        a["kind"] = "time";
+        a["stall_point"] = points[rng.below(3)];
+        a["stall_ms"] = T + kScanMs + kMarginMs + static_cast<long>(rng.below(800));
+        a["body_len"] = 20;
+        conns.push(a);
+        int nsucc = static_cast<int>(rng.range(1, 2));
+        for (int q = 0; q < nsucc; ++q) {
+            Json b = Json::object();
+            b["tag"] = static_cast<long long>(++tag);
+            b["after"] = static_cast<int>(conns.size()) - 1 - q;
+            b["start_us"] = static_cast<int>(rng.below(300000)); // after the predecessor's end
+            b["kind"] = "time";
+            b["stall_point"] = points[rng.below(3)];
+            b["stall_ms"] = T + kScanMs + kMarginMs + static_cast<long>(rng.below(800));
+            b["body_len"] = 20;
+            conns.push(b);
+        }
+    }
     p["conns"] = conns;
     for (size_t i = 0; i < conns.size(); ++i)
         if (conns.at(i).str("kind") == "time" && L < 256) p["max_req"] = 256L; // the stalled request itself must fit
@@ -198,7 +224,23 @@ void run(const Json& plan)
             st.push_back(httpw::step(Step::Close));
         }
         cp.cl = std::make_shared<actors::Client>(static_cast<int>(i), port, st);
-        cp.cl->start(c.num("start_us", 0) * 1000);
+        int after = c.has("after") ? static_cast<int>(c.num("after", -1)) : -1;
+        if (after >= 0 && after < static_cast<int>(cps.size())) {
+            // starts when the server has ended its predecessor (polled every 2 simulated ms for at most 60 s)
+            auto pred = cps[static_cast<size_t>(after)].cl;
+            auto me = cp.cl;
+            i64 delay = std::max<i64>(0, std::min<i64>(c.num("start_us", 0), 400000)) * 1000;
+            auto tries = std::make_shared<int>(0);
+            auto poll = std::make_shared<std::function<void()>>();
+            *poll = [pred, me, delay, tries, poll] {
+                if (pred->st.peer_fin || pred->st.reset || pred->finished() || ++*tries > 30000) me->start(delay);
+                else sim::schedule_in(2 * 1000000LL, *poll, "driver.successor");
+            };
+            sim::schedule_in(2 * 1000000LL, *poll, "driver.successor");
+            longest += longest; // the successor waits for its predecessor
+            r.probe("successor-on-a-reused-descriptor");
+        } else
+            cp.cl->start(c.num("start_us", 0) * 1000);
         cps.push_back(cp);
     }
     const std::function<bool()> all_done = [&] {
